@@ -190,10 +190,19 @@ def grid(ctx, only_functions=None, thorough=None):
     for c in c13_cases.utility_cases():
         for lay in c13_dyn.LAYOUTS:
             cells.append((c, lay, "utility"))
-    for ci, c in enumerate(c13_cases.operator_cases()):
-        lays = c13_dyn.LAYOUTS if thorough else [c13_dyn.LAYOUTS[(ci + ctx.seed) % 4]]
-        for lay in lays:
-            cells.append((c, lay, "operator"))
+    # operator methods: quick = every (class, method) once, variant (batch shape / tree depth / dtype) and layout rotating so that
+    # 16 consecutive cells cover all (variant, layout) pairs; thorough = all variants x all layouts
+    vn = list(c13_cases.VARIANTS)
+    if thorough:
+        for c in c13_cases.operator_cases():
+            for lay in c13_dyn.LAYOUTS:
+                cells.append((c, lay, "operator"))
+    else:
+        per_variant = {v: c13_cases.operator_cases(variants=[v]) for v in vn}
+        n = len(per_variant[vn[0]])
+        for ci in range(n):
+            v = vn[((ci // 4) + ctx.seed) % 4]
+            cells.append((per_variant[v][ci], c13_dyn.LAYOUTS[(ci + ctx.seed) % 4], "operator"))
     for c in c13_cases.history_cases():
         for lay in (c13_dyn.LAYOUTS if thorough else ["contiguous", "slice"]):
             cells.append((c, lay, "history"))
@@ -282,6 +291,47 @@ def dynamic_stage(ctx, meta, cells, types, localise_limit=200):
             "raised_samples": dict(list(raised_samples.items())[:6])}
 
 
+def trace_stage(ctx, meta, cells):
+    """IR / execution correspondence (harness/c13_trace.py): the invariant of the soundness proof and the completeness of the
+    in-place site table, checked on real executions of the translated functions"""
+    from . import c13_trace
+    tr = c13_trace.IRTracer(meta)
+    stat = collections.Counter()
+    for (case, lay, kind) in cells:
+        stat[c13_trace.run_traced(case, lay, ctx.seed, tr)] += 1
+    for k, v in list(tr.unsound.items())[:6]:
+        ctx.violation({"kind": "ir-does-not-cover-execution", "function": "%s::%s" % (k[0], k[1]), "variable": k[2], "line": k[3], "times": v,
+                       "what": "the variable was observed holding caller-owned storage but no IR definition of it is in the candidate set: "
+                               "the translator (or a table it trusts) is unsound for this construct",
+                       "correspondence": "invariant `inv` of coq/C13/Own.v checked on executions (harness/c13_trace.py)"}, no_input=True)
+    for k, v in list(tr.untracked.items())[:6]:
+        ctx.violation({"kind": "untracked-in-place-write", "at": k, "times": v,
+                       "what": "a tensor's _version changed while this library line executed, but the translator has no in-place site there "
+                               "(a writer outside the trailing-underscore / out= / subscript / augmented-assignment conventions)",
+                       "correspondence": "in-place site table of coq/C13/gen/OwnIR.v vs observed _version bumps (harness/c13_trace.py)"}, no_input=True)
+    slice_obs = sorted(tr.coq_obs)
+    return {"cells_traced": sum(stat.values()), "status": dict(stat), "lines_traced": tr.lines, "bindings_examined": tr.bindings,
+            "bindings_holding_caller_storage": sum(tr.obs.values()), "distinct_caller_holding_definitions": len(tr.obs),
+            "not_covered_by_ir": len(tr.unsound), "version_bumps_at_ir_sites": tr.bumps_ok, "version_bumps_elsewhere": sum(tr.untracked.values()),
+            "checked_slice_variables_observed_holding_caller_storage": len(slice_obs)}
+
+
+def trace_cells(ctx, cells):
+    """quick: every utility (entry, variant) in two layouts, every second operator / history cell; thorough: all cells"""
+    if not ctx.quick:
+        return cells
+    out, seen = [], collections.Counter()
+    for i, (case, lay, kind) in enumerate(cells):
+        if kind == "utility":
+            k = (case[0], case[1])
+            idx = ["contiguous", "expanded", "transposed", "slice"].index(lay)
+            if idx == 0 or idx == 1 + (__import__("zlib").crc32((k[0] + k[1]).encode()) + ctx.seed) % 3:
+                out.append((case, lay, kind))
+        elif i % 2 == ctx.seed % 2:
+            out.append((case, lay, kind))
+    return out
+
+
 def report_static(ctx, meta, dyn):
     """every failing static site is a violation (known finding or new); its replay carries the refutation lemma and, when the
     dynamic search hit the same function and operation, the concrete input"""
@@ -360,6 +410,8 @@ def run(ctx):
     dyn = dynamic_stage(ctx, meta, cells, types, localise_limit=400 if unknown_static else 200)
     stat_rep = report_static(ctx, meta, dyn)
     t_dyn = time.time() - t0 - t_tr - t_pf - t_val
+    trc = trace_stage(ctx, meta, trace_cells(ctx, cells))
+    t_trc = time.time() - t0 - t_tr - t_pf - t_val - t_dyn
     # coverage
     executed = dyn["executed"]
     translated = {(t["module"], t["qual"]) for t in meta["table"]}
@@ -383,9 +435,10 @@ def run(ctx):
             "fresh or alias their ARGUMENT (validated for every operator class and library-built preconditioner; trusted for user closures)",
             "tensor-typed parameters: annotations and harness/c13_types.json (validated by a profile hook on every call of the dynamic grid)",
             "allow-list harness/c13_allow.json (%d entries in use: cache / memo attribute rebinding and one Python-int augmented assignment; each with a written justification)" % len(meta["allow_ids_used"]),
-            "dynamic search harness (harness/c13_dyn.py, c13_cases.py): layouts, before/after comparison, localiser",
+            "dynamic search harness (harness/c13_dyn.py, c13_cases.py): layouts, before/after comparison, localiser; "
+            "trace correspondence harness/c13_trace.py (sys.settrace; bounded-depth search for storages inside containers / operators)",
             "storage-identity abstraction: tensors are abstracted to storage identifiers; partial overlap inside one storage is treated as aliasing"],
-        "evaluations": sum(dyn["stat"].values()) + optab["observations"] + clos["closure_calls_checked"],
+        "evaluations": sum(dyn["stat"].values()) + optab["observations"] + clos["closure_calls_checked"] + trc["cells_traced"],
         "distinct_nontrivial": dyn["distinct_ok"],
         "rule": "dynamic cells (entry, variant, layout) whose call completed without raising and in which every caller tensor / pre-existing operator "
                 "was compared before/after; distinct by (entry, variant, layout); cells that raised or could not be built are not counted",
@@ -400,8 +453,9 @@ def run(ctx):
                    "failing_sites": stat_rep, "return_summaries": len(meta["returns_fresh"]), "inplace_helpers": meta["helpers"],
                    "allow_ids_unused": meta["allow_ids_unused"],
                    "classification_usage": {k: v for k, v in meta["used"].items() if k.split(":")[0] in ("binop", "ambiguous_as_unknown", "closure_param_call")}},
-        "op_table": optab, "closure_assumption": clos,
-        "seconds": {"translate": round(t_tr, 1), "proofs": round(t_pf, 1), "validation": round(t_val, 1), "dynamic": round(t_dyn, 1)},
+        "op_table": optab, "closure_assumption": clos, "ir_trace_correspondence": trc,
+        "seconds": {"translate": round(t_tr, 1), "proofs": round(t_pf, 1), "validation": round(t_val, 1), "dynamic": round(t_dyn, 1),
+                    "trace": round(t_trc, 1)},
         "samples": [
             {"cell": [cells[0][0][0], cells[0][0][1], cells[0][1]], "what": "caller tensors compared before/after"},
             {"cell": [cells[len(cells) // 2][0][0], cells[len(cells) // 2][0][1], cells[len(cells) // 2][1]]},
